@@ -625,10 +625,10 @@ func (fr *Frame) instr(st *State, b *ssa.BasicBlock, in ssa.Instruction) (bool, 
 			return false, fr.unsupportedErr(in, err)
 		}
 		fr.vals[x] = vc.Define(x.Name(), r)
-		if !x.Heap && addrPrivate(x) && !vc.tt.isAggregateTooLarge(el) {
+		if addrPrivate(x, true) && !vc.tt.isAggregateTooLarge(el) {
 			// a local whose address never leaves the function (only loads, stores and field
 			// addressing): no callee can write it, whatever its frame clause says
-			vc.captured = append(vc.captured, capturedCell{fr.vals[x], el})
+			vc.captured = append(vc.captured, capturedCell{fr.vals[x], el, x})
 		}
 	case *ssa.Store:
 		a, err := fr.value(x.Addr)
@@ -1610,6 +1610,24 @@ func (fr *Frame) enterLoop(li *loopInfo, pre *State, phis []*ssa.Phi, phiEntry m
 	// havoc
 	hs := pre.clone()
 	ef := fr.loopEffects(li)
+	// Private cells (locals whose address never leaves the function, read-only captured
+	// variables) that the loop body itself does not store into cannot change in the loop -
+	// whatever its callees do: they keep their value through a havoc of "everything".
+	type keptCell struct {
+		c capturedCell
+		v Term
+	}
+	var keptCells []keptCell
+	if ef.all {
+		for _, c := range vc.captured {
+			if c.root == nil || storesInto(c.root, li.blocks) {
+				continue
+			}
+			if v, err := vc.loadAt(hs, c.addr, c.ty); err == nil {
+				keptCells = append(keptCells, keptCell{c, v})
+			}
+		}
+	}
 	if allowed, ok := vc.loopFrameAllowed(); ef.all && ok {
 		// the body may write anywhere, but the function's modifies clause bounds what may change
 		// in pre-existing objects: cells outside it keep their value (re-proved at every back edge)
@@ -1717,6 +1735,9 @@ func (fr *Frame) enterLoop(li *loopInfo, pre *State, phis []*ssa.Phi, phiEntry m
 			hs.assume(Ge(na, hs.alloc))
 			hs.alloc = na
 		}
+	}
+	for _, k := range keptCells {
+		vc.storeAt(hs, k.c.addr, k.c.ty, k.v)
 	}
 	if ef.chrecv || ef.all {
 		for _, elem := range fr.recvElemTypes(li) {
@@ -2177,9 +2198,11 @@ func (fr *Frame) lookupLocalAddr(name string) (Term, types.Type, bool) {
 	return Term{}, nil, false
 }
 
-// addrPrivate: the address of a stack variable is used only to load from it, to store into it,
-// and to address its fields or elements (recursively) - it is never passed, stored or captured.
-func addrPrivate(v ssa.Value) bool {
+// addrPrivate: the address of a variable is used only to load from it, to store into it (if
+// writable), and to address its fields or elements (recursively); it is never passed on, stored
+// or returned. It may be captured by closures that only read it: such a closure - wherever it is
+// called from - cannot change the variable, and nobody else can reach it.
+func addrPrivate(v ssa.Value, writable bool) bool {
 	refs := v.Referrers()
 	if refs == nil {
 		return false
@@ -2192,20 +2215,57 @@ func addrPrivate(v ssa.Value) bool {
 				return false
 			}
 		case *ssa.Store:
-			if x.Val == v {
+			if x.Val == v || !writable {
 				return false
 			}
 		case *ssa.FieldAddr:
-			if !addrPrivate(x) {
+			if !addrPrivate(x, writable) {
 				return false
 			}
 		case *ssa.IndexAddr:
-			if x.X != v || !addrPrivate(x) {
+			if x.X != v || !addrPrivate(x, writable) {
 				return false
+			}
+		case *ssa.MakeClosure:
+			fn, ok := x.Fn.(*ssa.Function)
+			if !ok {
+				return false
+			}
+			for i, b := range x.Bindings {
+				if b == v {
+					if i >= len(fn.FreeVars) || !addrPrivate(fn.FreeVars[i], false) {
+						return false
+					}
+				}
 			}
 		default:
 			return false
 		}
 	}
 	return true
+}
+
+// storesInto: some block of the set stores into the variable (or a field / element of it).
+func storesInto(v ssa.Value, blocks map[*ssa.BasicBlock]bool) bool {
+	refs := v.Referrers()
+	if refs == nil {
+		return true
+	}
+	for _, r := range *refs {
+		switch x := r.(type) {
+		case *ssa.Store:
+			if x.Addr == v && blocks[x.Block()] {
+				return true
+			}
+		case *ssa.FieldAddr:
+			if storesInto(x, blocks) {
+				return true
+			}
+		case *ssa.IndexAddr:
+			if storesInto(x, blocks) {
+				return true
+			}
+		}
+	}
+	return false
 }
